@@ -75,13 +75,17 @@ def run(ctx, replay):
         ctx.cov["evaluations"] += e["inputs"]
         ctx.cov["enumeration"] = {kk: e[kk] for kk in ("k", "atoms", "sequences", "inputs", "outcomes", "max_micro", "unconfirmed_expiries")}
         ctx.cov["enumeration"]["child_crashes"] = e["crashes"][:5]
-        if e["unconfirmed_expiries"] > 5:
+        if ctx.violations:
+            pass    # hangs were found and confirmed: whatever else the enumeration could not finish does not matter
+        elif e["unconfirmed_expiries"] > 5:
             raise Inconclusive("%d deadline expiries that did not reproduce alone (machine overloaded?)" % e["unconfirmed_expiries"])
         want = sum(e["atoms"] ** i for i in range(k + 1)) * 2
-        if e["stopped_early"] and not e["anomalies"]:
+        if ctx.violations:
+            pass
+        elif e["stopped_early"] and not e["anomalies"]:
             raise Inconclusive("enumeration stopped early without a confirmed hang")
-        if not e["stopped_early"] and e["inputs"] < want - 2 * (len(e["crashes"]) + len(e["anomalies"]) + e["unconfirmed_expiries"]) - 2:
+        if not ctx.violations and not e["stopped_early"] and e["inputs"] < want - 2 * (len(e["crashes"]) + len(e["anomalies"]) + e["unconfirmed_expiries"]) - 2:
             raise Inconclusive("enumeration incomplete: %d of %d inputs" % (e["inputs"], want))
-    if not replay and t["inputs"] < ctx.pick(8000, 100000):
+    if not replay and not ctx.violations and t["inputs"] < ctx.pick(8000, 100000):
         raise Inconclusive("too few inputs: %d" % t["inputs"])
     return ctx.finish("model_checking")
